@@ -460,7 +460,7 @@ func routingCase(c *lib.Ctx) {
 		if err != nil {
 			c.Fail("state-error", wit(nil, append(steps, "Checkpoint(1)")...), "Checkpoint: %v", err)
 		}
-		if err := db.WaitOnTasks(); err != nil {
+		if _, err := lib.WaitDB(db, 20*time.Second); err != nil {
 			c.Fail("state-error", wit(nil, append(steps, "WaitOnTasks")...), "WaitOnTasks: %v", err)
 		}
 		reopened := dkv.Open(opts, []recovery.CheckpointHandle{h})
